@@ -428,6 +428,27 @@ def check_illegal_char_table(chk, ix):
     else:
         chk.fail(Finding("J7", f.fullname, "U+%04X is altered" % bad[0], "the sanitiser alters the ordinary characters %s: "
                          "reports lose legitimate text" % ", ".join("U+%04X" % c for c in bad), file=f.file, line=f.lineno))
+    # what the serialiser really calls for CDATA text is escape_CDATA: no forbidden character and no "]]>" comes out of it,
+    # whether or not the text contains a CDATA terminator; an empty text stays empty
+    g = ix.func("behave.reporter.junit:escape_CDATA")
+    if g is None:
+        raise AnalysisError("anchor missing: behave.reporter.junit:escape_CDATA")
+    for text in ("a\x00b", "bell\x07 and esc\x1b[0m", "x]]>y", "x]]>\x08y", "]]>", "plain text", "\ud800", ""):
+        chk.instance("J7")
+        st = State()
+        st.frames = []
+        outs = it.call_function(st, g, [text], {}, None)
+        if len(outs) != 1 or outs[0][1] != "val" or not isinstance(outs[0][2], str):
+            raise AnalysisError("escape_CDATA(%r) does not evaluate to one constant string: %r" % (text, [(k, repr(v)[:60]) for _, k, v in outs][:3]))
+        out = outs[0][2]
+        leftover = [c for c in out if ord(c) < 0x20 and c not in "\t\n\r" or 0xD800 <= ord(c) <= 0xDFFF or ord(c) in (0xFFFE, 0xFFFF)]
+        if not leftover and "]]>" not in out and (out != "") == (text != ""):
+            chk.ok("J7", {"escape_CDATA": ascii(text), "gives": ascii(out)}, nontrivial_key=("cdata", text))
+        else:
+            chk.fail(Finding("J7", g.fullname, "escape_CDATA(%s)" % ascii(text),
+                             "escape_CDATA(%s) returns %s: it still contains %s - the CDATA section written to the report is not well-formed"
+                             % (ascii(text), ascii(out), "the terminator ']]>'" if "]]>" in out else "the forbidden character U+%04X" % ord(leftover[0]) if leftover else "nothing"),
+                             file=g.file, line=g.lineno, stmt="def escape_CDATA"))
     # a mixed text: every forbidden character goes, everything else stays in order
     chk.instance("J7")
     text = "x\x00<tag>\x1b[0m]]\ud800\xe9\ufffe\U0001f600\ty"
